@@ -661,4 +661,25 @@ theorem C06_boundsExact_satisfiable : BoundsExact boxGeos := by
   · exact max_eq_right (SE.Proofs.Lemmas.Bounds.isBoundsOf_ordered b _
       (SE.Proofs.Lemmas.Bounds.ptsBounds_isBoundsOf _ b hb)).1
 
+/-! ### non-vacuity of the rounding-arithmetic theorems -/
+
+example : Representable id boxGeos := ⟨fun _ => rfl, fun _ _ => rfl⟩
+
+/-- the hypotheses of `C06_self_one_rounded` / `C06_range_rounded` are met by rectangles in exact arithmetic … -/
+example : affinityR id boxGeos (.timeStamp 1) (.timeStamp 1) (1/4) 1 = .ok 1 :=
+  C06_self_one_rounded isRounding_id boxGeos boxGeos_sound ⟨fun _ => rfl, fun _ _ => rfl⟩ (.timeStamp 1) (1/4) 1
+    (.interval "TimeInterval" (max ((1 : Rat) - 1/4) 0) (1 + 1/4))
+    (by rw [prepareR_spec]; simp only [id]; rw [if_neg (by decide +kernel)]) (by decide +kernel)
+
+/-- … and the conclusions are what a coarse rounding computes as well -/
+example : affinityR floorRnd boxGeos (.boundingBox 0 0 2 1) (.boundingBox 0 0 2 1) (1/2) 1 = .ok 1 := by decide +kernel
+example : affinityR floorRnd boxGeos (.timeStamp 3) (.timeInterval 5 7) (3/2) 1 = .ok 0 := by decide +kernel
+example : affinityR floorRnd boxGeos (.timeStamp 3) (.timeInterval 4 7) (3/2) 1 = .ok 0 := by decide +kernel
+example : affinity boxGeos (.timeStamp 3) (.timeInterval 4 7) (3/2) 1 = .ok (1/11) := by decide +kernel
+
+/-- `rnd64` on concrete numbers: 1/3 and 1/10 round to the binary64 neighbours Python prints -/
+example : rnd64 (1/3) = 6004799503160661 / 18014398509481984 := by decide +kernel
+example : rnd64 (1/10) = 3602879701896397 / 36028797018963968 := by decide +kernel
+example : rnd64 1 = 1 ∧ rnd64 0 = 0 ∧ rnd64 5000000 = 5000000 := by decide +kernel
+
 end SE.Proofs.C06
